@@ -66,18 +66,25 @@ CONFIG = {"scalars": {"B": {"type": ".scal.Code", "parse": ".scal.parse_b", "ser
                       "DT": {"type": "datetime.datetime"}},
           "files_to_include": ["scal.py"], "target_package_name": "p07", "async_client": False}
 
-with opened_auditwall():
-    _BASE = tempfile.mkdtemp(prefix="vh07_", dir="/tmp")
-    _r = gen.generate({"schema": sdl(), "queries": ops(), "config": CONFIG, "files": {"scal.py": SCAL}})
-    assert _r["ok"], (_r["exc_type"], _r["exc_msg"], _r["tb"])
-    os.makedirs(os.path.join(_BASE, "p07"))
-    for _fn, _src in _r["files"].items():
-        with open(os.path.join(_BASE, "p07", _fn), "w") as _f:
-            _f.write(_src)
-    sys.path.insert(0, _BASE)
-    PKG = importlib.import_module("p07")
-    SC = importlib.import_module("p07.scal")
-    META = {m.operation_name: m for m in Package(_r["files"], "p07").client_methods()}
+SETUP_ERROR = ""
+PKG = SC = None
+META = {}
+try:
+    with opened_auditwall():
+        _BASE = tempfile.mkdtemp(prefix="vh07_", dir="/tmp")
+        _r = gen.generate({"schema": sdl(), "queries": ops(), "config": CONFIG, "files": {"scal.py": SCAL}})
+        if not _r["ok"]:
+            raise RuntimeError(f"generation failed: {_r['exc_type']}: {_r['exc_msg']}")
+        os.makedirs(os.path.join(_BASE, "p07"))
+        for _fn, _src in _r["files"].items():
+            with open(os.path.join(_BASE, "p07", _fn), "w") as _f:
+                _f.write(_src)
+        sys.path.insert(0, _BASE)
+        PKG = importlib.import_module("p07")
+        SC = importlib.import_module("p07.scal")
+        META = {m.operation_name: m for m in Package(_r["files"], "p07").client_methods()}
+except Exception as _e:  # the emitted package does not generate / load: every obligation below fails (reported after replay)
+    SETUP_ERROR = f"{type(_e).__name__}: {_e}"
 
 RAW = {"B": "b1", "P": "p1", "S": "s1", "DT": "2020-01-02T03:04:05", "U": {"k": 1}}
 
@@ -243,9 +250,14 @@ def check_results(si: int, ki: int, sh: int) -> bool:
     """
     post: _
     """
+    if SETUP_ERROR:
+        return False
     a, b, c = pick(si, len(SCALARS)), pick(ki, len(STACKS)), pick(sh, 4)
     with NoTracing():
-        ok, _ = result_case(a, b, c)
+        try:
+            ok, _ = result_case(a, b, c)
+        except Exception:
+            ok = False
     return ok
 
 
@@ -253,6 +265,8 @@ def check_arguments(si: int, ki: int, sh: int) -> bool:
     """
     post: _
     """
+    if SETUP_ERROR:
+        return False
     a, b, c = pick(si, len(SCALARS)), pick(ki, len(STACKS)), pick(sh, 5)
     with NoTracing():
         ok, detail, cls = arg_case(a, b, c)
@@ -269,10 +283,15 @@ def check_inputs(si: int, ki: int, sh: int, nested: bool) -> bool:
     """
     post: _
     """
+    if SETUP_ERROR:
+        return False
     a, b, c = pick(si, len(SCALARS)), pick(ki, len(STACKS)), pick(sh, 4)
     n = True if nested else False
     with NoTracing():
-        ok, _ = input_case(a, b, c, n)
+        try:
+            ok, _ = input_case(a, b, c, n)
+        except Exception:
+            ok = False
     return ok
 
 
@@ -280,9 +299,14 @@ def check_nested_results(which: int) -> bool:
     """
     post: _
     """
+    if SETUP_ERROR:
+        return False
     w = pick(which, 2)
     with NoTracing():
-        ok, _ = nested_result_case(w)
+        try:
+            ok, _ = nested_result_case(w)
+        except Exception:
+            ok = False
     return ok
 
 
@@ -291,8 +315,13 @@ def twin_parse_twice_reached(si: int, ki: int, sh: int) -> bool:
     post: _
     """
     a, b, c = pick(si, len(SCALARS)), pick(ki, len(STACKS)), pick(sh, 4)
+    if SETUP_ERROR:
+        return True
     with NoTracing():
-        ok, _ = result_case(a, b, c)
+        try:
+            ok, _ = result_case(a, b, c)
+        except Exception:
+            ok = False
         n = len(SC.CALLS)
     return not (ok and n == 2)
 
